@@ -14,6 +14,9 @@
    track <n> {<link> <S|V|P>}*n                                            -> ok      (registered tracker targets)
    post <n> {<id> <prio> <link> <field> <value>}*n                       -> <changed 0|1> | user,internal,setting ; ...
    pre <first 0|1> <simTime> <n> {<id> <prio> <link> <field> <value> <back>}*n   -> <simTime'> <changed> | links...
+   prer <first 0|1> <simTime> <ruleStep> <ruleIter> <n> {due as in pre}*n R <m> {<time> <k> {<prio> <link> <field> <value>}*k}*m
+                                                                         -> <simTime'> <ruleIter'> <changed> | links...   (presolve WITH rules; R = the rules
+                                                                            triggered at each rule instant the implementation evaluated, in check order)
    rows <tank> <n> {<time> <head> <demand>}*n                            -> ok
    rowsl <tank> <n> {<time> <head> <demand> <leak> <linkNet>}*n          -> ok
    integrall <tank> <rtol> <atol> <qtol>                                 -> ok | bad <i>     (identity with the leak explicit)
@@ -116,6 +119,31 @@ def parseDues : Nat → List String → Option (List Due)
     let i ← i.toNat?; let p ← p.toNat?; let l ← l.toNat?; let f ← parseField f; let v ← parseRat v; let b ← b.toInt?
     let r ← parseDues n rest
     some (⟨⟨i, p, ⟨l, f, v⟩⟩, b⟩ :: r)
+  | _, _ => none
+
+def takeDues : Nat → List String → Option (List Due × List String)
+  | 0, rest => some ([], rest)
+  | n + 1, i :: p :: l :: f :: v :: b :: rest => do
+    let i ← i.toNat?; let p ← p.toNat?; let l ← l.toNat?; let f ← parseField f; let v ← parseRat v; let b ← b.toInt?
+    let (r, rest') ← takeDues n rest
+    some (⟨⟨i, p, ⟨l, f, v⟩⟩, b⟩ :: r, rest')
+  | _, _ => none
+
+def takeRuleActs : Nat → List String → Option (List Ctl × List String)
+  | 0, rest => some ([], rest)
+  | n + 1, p :: l :: f :: v :: rest => do
+    let p ← p.toNat?; let l ← l.toNat?; let f ← parseField f; let v ← parseRat v
+    let (r, rest') ← takeRuleActs n rest
+    some (⟨0, p, ⟨l, f, v⟩⟩ :: r, rest')
+  | _, _ => none
+
+def takeRuleTable : Nat → List String → Option (List (Int × List Ctl))
+  | 0, [] => some []
+  | n + 1, t :: k :: rest => do
+    let t ← t.toInt?; let k ← k.toNat?
+    let (acts, rest') ← takeRuleActs k rest
+    let r ← takeRuleTable n rest'
+    some ((t, acts) :: r)
   | _, _ => none
 
 def parseRows : Nat → List String → Option (List Row)
@@ -282,6 +310,19 @@ def handle (d : DState) (line : String) : DState × String :=
       let r := presolve d.tracked (first == "1") due d.links t
       ({ d with links := r.1 }, s!"{r.2} {if changed d.tracked d.links r.1 then 1 else 0} | {showLinks r.1}")
     | _, _ => (d, "bad-op")
+  | "prer" :: first :: t :: rule :: ri :: n :: rest =>
+    match t.toInt?, rule.toInt?, ri.toInt?, n.toNat? >>= (takeDues · rest) with
+    | some t, some rule, some ri, some (due, "R" :: m :: rest') =>
+      match m.toNat? >>= (takeRuleTable · rest') with
+      | some table =>
+        let ruleAt := fun (r : Int) (ls : Links) =>
+          match table.find? (·.1 == r) with
+          | some (_, acts) => runPass acts ls
+          | none => ls
+        let r := presolveRules d.tracked (first == "1") due d.links t rule ri ruleAt
+        ({ d with links := r.1 }, s!"{r.2.1} {r.2.2} {if changed d.tracked d.links r.1 then 1 else 0} | {showLinks r.1}")
+      | none => (d, "bad-op")
+    | _, _, _, _ => (d, "bad-op")
   | "rows" :: t :: n :: rest =>
     match t.toNat?, n.toNat? >>= (parseRows · rest) with
     | some t, some rs => ({ d with rows := (t, rs) :: d.rows.filter (·.1 != t) }, "ok")
